@@ -146,6 +146,38 @@ def _regular_cir(c, kappa, theta, sigma, dt, vs):
         c.assume(api.le(s2, m * m * 10 ** 30))
 
 
+def tensor_init_case(kind):
+    """a tensor passed as initial state is left untouched, and a second simulation from it starts at the same value"""
+    import pfhedge.stochastic as S
+
+    def fn(c):
+        c.env["max_jumps"] = 0
+        dt = api.real(c, "dt", pos=True)
+        sigma = api.real(c, "sigma", pos=True)
+        theta = api.real(c, "theta", pos=True)
+        kappa = api.real(c, "kappa", pos=True)
+        x0 = api.tensor(c, "x0", (), pos=True)
+        keep = x0.clone()
+        gens = {
+            "vasicek": lambda: S.generate_vasicek(1, 2, init_state=(x0,), kappa=kappa, theta=theta, sigma=sigma, dt=dt),
+            "cir": lambda: S.generate_cir(1, 2, init_state=(x0,), kappa=kappa, theta=theta, sigma=sigma, dt=dt),
+            "geometric_brownian": lambda: S.generate_geometric_brownian(1, 2, init_state=(x0,), sigma=sigma, dt=dt),
+            "brownian": lambda: S.generate_brownian(1, 2, init_state=(x0,), sigma=sigma, dt=dt),
+            "merton": lambda: S.generate_merton_jump(1, 2, init_state=(x0,), sigma=sigma, dt=dt),
+            "kou": lambda: S.generate_kou_jump(1, 2, init_state=(x0,), sigma=sigma, dt=dt),
+            "local_volatility": lambda: S.generate_local_volatility_process(1, 2, lambda t, s: 0.2 + s * 0, init_state=(x0,), dt=dt).spot,
+        }
+        if kind == "cir":
+            _regular_cir(c, kappa, theta, sigma, dt, [val(elem(x0))])
+        first = gens[kind]()
+        c.check("%s: the caller's initial-state tensor is untouched" % kind, api.same(elem(x0), elem(keep)))
+        second = gens[kind]()
+        c.check("%s: a second simulation from the same tensor starts at the same value" % kind, api.same(elem(second, 0, 0), elem(keep)))
+        c.check("%s: first simulation starts at the requested value" % kind, api.same(elem(first, 0, 0), elem(keep)))
+
+    return fn
+
+
 def cir_step_case():
     """inductive step: v_i >= 0 => v_{i+1} >= 0 and not NaN on both QE branches; Heston's square-root argument is non-negative"""
     import pfhedge.stochastic as S
@@ -231,6 +263,9 @@ def cases():
                            timeout=300, max_paths=32, bounds="n_paths=2 n_steps=2, default initial state (a second QE step from a symbolic state is the inductive-step case)", tier="thorough"))
         cs.append(Case("gen/%s/N1T1" % k, generator_case(k, 1, 1), xmode=True, encodes=enc, families=fam, batch=False, timeout=60, max_paths=32,
                        bounds="n_steps=1"))
+    for k in ("vasicek", "cir", "geometric_brownian", "brownian", "merton", "kou", "local_volatility"):
+        cs.append(Case("tensor-init/%s" % k, tensor_init_case(k), xmode=True, encodes=enc, families=fam, batch=False, timeout=120, max_paths=32,
+                       bounds="0-dim tensor initial state re-used for two simulations"))
     cs.append(Case("cir/inductive-step", cir_step_case(), xmode=True, encodes=enc, families=fam, batch=False, timeout=120, bounds="one step from any v>=0"))
     for p in PRIMS:
         cs.append(Case("instrument/%s" % p, instrument_case(p), xmode=True, encodes=enc, families=fam, batch=False, timeout=300, max_paths=32,
